@@ -27,8 +27,11 @@ def digest(b):
 
 class Packet:
     __slots__ = ("ep", "idx", "chan", "mode", "len", "seed", "digest", "tick", "time", "frag_fnv")
-    def __init__(self, ep, idx, chan, mode, ln, seed, tick, time):
+    def __init__(self, ep, idx, chan, mode, ln, seed, tick, time, digest_text=None):
         self.ep = ep; self.idx = idx; self.chan = chan; self.mode = mode; self.len = ln; self.seed = seed
+        if digest_text is not None:            # huge payload: digest supplied by the harness helper, no per-fragment hashes
+            self.digest = digest_text; self.tick = tick; self.time = time; self.frag_fnv = []
+            return
         data = gen_payload(seed, ln)
         self.digest = digest(data); self.tick = tick; self.time = time
         n = max(1, (ln + F - 1) // F)
@@ -111,9 +114,10 @@ class Sim:
         self.time = t
         self.op("t %d" % t)
 
-    def send(self, ep, chan, mode, ln):
+    def send(self, ep, chan, mode, ln, huge=False):
         seed = self.next_seed; self.next_seed += 1
-        p = Packet(ep, len(self.sent[ep]), chan, mode, ln, seed, self.tick, self.time)
+        dg = self.op("digest @%d:%d" % (seed, ln)) if huge else None
+        p = Packet(ep, len(self.sent[ep]), chan, mode, ln, seed, self.tick, self.time, digest_text=dg)
         self.sent[ep].append(p)
         pay = "-" if ln == 0 else "@%d:%d" % (seed, ln)
         self.op("%s send %s %d %d" % (ep, pay, chan, mode))
